@@ -254,6 +254,12 @@ def _job(job):
     if kind == "a1":
         doc = meta.load(job["yaml"])
         cpath = tuple(job["container"]) if job["container"] is not None else None
+        # member variables make Shroud generate getter / setter functions that no declaration names: the container's
+        # setting reaches them, "each contained declaration" cannot - the two sides are not the same statement
+        for p_, n_, _l in meta.walk_decls(doc):
+            if meta.decl_kind(n_) == "variable" and (cpath is None or p_[:len(cpath)] == cpath):
+                out["skipped"] = 1
+                return out
         A = set_on(doc, cpath, job["what"], job["key"], job["value"])
         B = doc
         for p in functions_under(doc, cpath):
@@ -331,6 +337,10 @@ def _job(job):
         # a block inside a block: the outer block's setting reaches the declarations of the inner one
         doc = meta.load(job["yaml"])
         i, j = job["span"]
+        for p_, n_, _l in meta.walk_decls(doc):
+            if meta.decl_kind(n_) == "variable" and i <= p_[0] < j:
+                out["skipped"] = 1      # generated getters / setters: see a1
+                return out
         A = copy.deepcopy(doc)
         lst = A["declarations"]
         inner = {"block": True, "declarations": lst[i:j]}
@@ -486,16 +496,10 @@ def run(ctx):
                 # (a class that was forward declared earlier takes format / options from its initial decl only -
                 #  struct.rst - so a span holding the re-opening decl is not a place for a setting)
                 tops = doc0["declarations"]
-                names_before = set()
-                reopened = False
-                for k_, d_ in enumerate(tops):
-                    if meta.decl_kind(d_) == "class":
-                        cn = decl_name(d_["decl"])
-                        if cn in names_before and span[0] <= k_ < span[1]:
-                            reopened = True
-                        names_before.add(cn)
-                if reopened:
-                    continue
+                cnames = [decl_name(d_["decl"]) for d_ in tops if meta.decl_kind(d_) == "class"]
+                twice = set(n for n in cnames if cnames.count(n) > 1)
+                if any(meta.decl_kind(d_) == "class" and decl_name(d_["decl"]) in twice for d_ in tops[span[0]:span[1]]):
+                    continue            # forward declaration or re-opening decl in the span
                 jobs.append(dict(kind="a3", name=name, yaml=text, argv=[], span=list(span), what=kv[0], key=kv[1], value=kv[2]))
         # ... and inside a namespace or class (ast.BlockNode: "Blocks can be added to a LibraryNode,
         # NamespaceNode or ClassNode")
